@@ -176,13 +176,13 @@ func (g *Grid) Nontrivial() bool {
 }
 
 type ShapeCfg struct {
-	MaxRows     int
-	MaxCells    int
-	Header      []int // offered header cell counts; -1 means no header
-	Sep         bool
-	HeaderLast  bool // also offer adding the header after the rows
-	MinCols     int  // shapes with fewer columns are skipped (returns nil)
-	ExactRows   bool
+	MaxRows    int
+	MaxCells   int
+	Header     []int // offered header cell counts; -1 means no header
+	Sep        bool
+	HeaderLast bool // also offer adding the header after the rows
+	MinCols    int  // shapes with fewer columns are skipped (returns nil)
+	ExactRows  bool
 }
 
 // ChooseShape lets the chooser pick a shape; texts are left empty ("") to be assigned by the caller.
